@@ -59,6 +59,7 @@ def kwargs_from_call(
     kwdefaults: Dict[str, Any],
     args: Tuple[Any, ...],
     kwargs: Dict[str, Any],
+    positional_only_names: FrozenSet[str] = frozenset(),
 ) -> MutableMapping[str, Any]:
     """
     Inspect the input values received at the wrapper for the actual function call.
@@ -67,6 +68,9 @@ def kwargs_from_call(
     :param kwdefaults: default argument values of the original function
     :param args: arguments supplied to the call
     :param kwargs: keyword arguments supplied to the call
+    :param positional_only_names:
+        names of the positional-only parameters of the original function
+        (a keyword argument so named is captured by ``**kwargs`` and is not the value of the parameter)
     :return: resolved arguments as they would be passed to the function
     """
     # (Marko Ristin, 2020-12-01)
@@ -88,6 +92,11 @@ def kwargs_from_call(
     # a parameter supplied positionally only if that parameter is positional-only (and the keyword argument is
     # captured by ``**kwargs``), in which case the positional argument is the value of the parameter.
     for key, val in kwargs.items():
+        if key in positional_only_names:
+            # The keyword argument is captured by ``**kwargs``; the parameter keeps its default value unless
+            # it is supplied positionally.
+            continue
+
         resolved_kwargs[key] = val
 
     for i, func_arg in enumerate(args):
@@ -721,6 +730,12 @@ def decorate_with_checker(func: CallableT) -> CallableT:
 
         param_names.append(param.name)
 
+    positional_only_names = frozenset(
+        param.name
+        for param in sign.parameters.values()
+        if param.kind == inspect.Parameter.POSITIONAL_ONLY
+    )
+
     # Determine the default argument values
     kwdefaults = resolve_kwdefaults(sign=sign)
 
@@ -767,6 +782,7 @@ def decorate_with_checker(func: CallableT) -> CallableT:
                     kwdefaults=kwdefaults,
                     args=args,
                     kwargs=kwargs,
+                    positional_only_names=positional_only_names,
                 )
 
                 type_error = _assert_resolved_kwargs_valid(
@@ -845,6 +861,7 @@ def decorate_with_checker(func: CallableT) -> CallableT:
                     kwdefaults=kwdefaults,
                     args=args,
                     kwargs=kwargs,
+                    positional_only_names=positional_only_names,
                 )
 
                 type_error = _assert_resolved_kwargs_valid(
